@@ -133,8 +133,10 @@ def gen(rng, tier):
             parent = dict(parent, rows=keep,
                           tmap=dict(rows=[[str(n), float(x), int(j)] for n, x, j in zip(*big.treatment_mapping)], isint=True),
                           smap=dict(rows=[[str(n), int(j)] for n, j in zip(*big.sample_mapping)], isint=True))
-        yield dict(kind="sim", parent=parent, fraction=rng.choice([0.0, 0.1, 0.3, 0.5, 0.5, 0.7, 1.0, 1.0]), seed=rng.randrange(10 ** 6),
-                   test=rng.random() < 0.4, ops=simlib.gen_ops(rng, with_setobs=False, cli=(rng.random() < 0.5)))
+        fraction = rng.choice([0.0, 0.1, 0.3, 0.5, 0.5, 0.7, 1.0, 1.0])
+        test = rng.random() < (0.08 if fraction == 0.0 else 0.4)
+        yield dict(kind="sim", parent=parent, fraction=fraction, seed=rng.randrange(10 ** 6), test=test,
+                   ops=simlib.gen_ops(rng, with_setobs=False, cli=(rng.random() < 0.5)))
 
 
 def _features(desc, h):
